@@ -86,4 +86,50 @@ theorem requests_at_most_blocks (re : Regex) (f : FileCtx) : (aiRequests re [f])
   simp only [aiRequests, List.map_cons, List.map_nil, List.flatten_cons, List.flatten_nil, List.append_nil]
   exact List.length_filterMap_le _ _
 
+/-- a block sends a request: it carries `check-ai` with a non-blank condition and its content selection succeeds -/
+def Sends (re : Regex) (f : FileCtx) (b : BlockCtx) : Bool :=
+  match Tag.attrGet b.block.attrs "check-ai".toList with
+  | none => false
+  | some a => !(trim a).isEmpty && (match blockContent re f.text b.block "check-ai-pattern" .aiError with
+      | .error _ => false
+      | .ok _ => true)
+
+theorem len_filterMap {α β} (g : α → Option β) (p : α → Bool) (h : ∀ a, (g a).isSome = p a) (l : List α) :
+    (l.filterMap g).length = (l.filter p).length := by
+  induction l with
+  | nil => rfl
+  | cons a as ih =>
+    have := h a
+    cases hg : g a with
+    | none => rw [hg] at this; simp [List.filterMap_cons, List.filter_cons, hg, ← this, ih]
+    | some x => rw [hg] at this; simp [List.filterMap_cons, List.filter_cons, hg, ← this, ih]
+
+/-- **exactly one request per sending block**, over any number of files -/
+theorem requests_exact (re : Regex) (ctx : List FileCtx) :
+    (aiRequests re ctx).length = ((ctx.map (fun f => (f.blocks.filter (Sends re f)).length)).sum) := by
+  induction ctx with
+  | nil => rfl
+  | cons f fs ih =>
+    simp only [aiRequests, List.map_cons, List.flatten_cons, List.length_append, List.sum_cons] at ih ⊢
+    rw [ih]
+    congr 1
+    apply len_filterMap
+    intro b
+    unfold Sends
+    cases Tag.attrGet b.block.attrs "check-ai".toList with
+    | none => rfl
+    | some a =>
+      by_cases h2 : (trim a).isEmpty = true
+      · simp [h2]
+      · simp only [h2, if_false, Bool.not_false, Bool.true_and, Bool.false_eq_true]
+        cases blockContent re f.text b.block "check-ai-pattern" .aiError <;> rfl
+
+/-- the message a sending block sends is the frame around its own condition and selected content -/
+theorem request_of_block (re : Regex) (f : FileCtx) (b : BlockCtx) (a c : Text) (hb : b ∈ f.blocks)
+    (h1 : Tag.attrGet b.block.attrs "check-ai".toList = some a) (h2 : (trim a).isEmpty = false)
+    (h3 : blockContent re f.text b.block "check-ai-pattern" .aiError = .ok c) :
+    aiUserMessage a c ∈ aiRequests re [f] := by
+  simp only [aiRequests, List.map_cons, List.map_nil, List.flatten_cons, List.flatten_nil, List.append_nil, List.mem_filterMap]
+  exact ⟨b, hb, by rw [h1]; simp only [h2, h3, Bool.false_eq_true, if_false]⟩
+
 end Bw.Props.C19
